@@ -378,6 +378,14 @@ def gen_reductions(rng, cx=False):
                     # positional axis
                     yield case(name, [A(rng, shape_of_rank(rng, r), dom, cx), r - 1])
                     yield case(name, [A(rng, shape_of_rank(rng, r), dom, cx), -1], form="method")
+                    # explicit accumulator dtype (the input's own, so the value is unchanged), by keyword; the
+                    # kw_by_position class of the engine derives sum(x, axis, dtype) from it. Square / cube shapes:
+                    # a rule that mis-parses the positional slots must not be saved by a shape error
+                    dt = onp.complex128 if cx else (onp.float64, float, "float64")[r % 3]
+                    for shp_ in (shape_of_rank(rng, r), (3,) * r) if name in ("sum", "mean", "prod", "var", "std") else ():
+                        yield case(name, [A(rng, shp_, dom, cx)], {"axis": r - 1, "dtype": dt}, tags=["dtype_option"])
+                        if r >= 2:
+                            yield case(name, [A(rng, shp_, dom, cx)], {"axis": 0, "dtype": dt}, tags=["dtype_option"])
         yield case(name, [scal(rng, "any", cx)])
         # all-ones shapes (one element, rank >= 1)
         for shp in ((1,), (1, 1), (1, 1, 1)):
@@ -397,6 +405,10 @@ def gen_reductions(rng, cx=False):
             yield case("cumsum", [A(rng, shape_of_rank(rng, r), "any", cx)], kw)
             if r in (1, 3):
                 yield case("cumsum", [A(rng, shape_of_rank(rng, r), "any", cx)], kw, form="method")
+    for r in (1, 2, 3):
+        dt = onp.complex128 if cx else onp.float64
+        yield case("cumsum", [A(rng, (3,) * r, "any", cx)], {"axis": r - 1, "dtype": dt}, tags=["dtype_option"])
+        yield case("cumsum", [A(rng, (3,) * r, "any", cx)], {"axis": 0, "dtype": dt}, tags=["dtype_option"])
     for shp in ((1,), (1, 1)):
         yield case("cumsum", [A(rng, shp, "any", cx)])
         yield case("cumsum", [A(rng, shp, "any", cx)], {"axis": 0})
@@ -709,6 +721,17 @@ def gen_shape(rng, cx=False):
             if n > 1:
                 for kth in (0, n - 1, n // 2, -1):
                     yield case("partition", [x, kth])
+        # long vectors (NumPy switches algorithm with the length) for every sorting kind, without ties and
+        # with two-way ties: the permutation a rule recomputes must be the one the other mode uses
+        for n in (24, 40):
+            for kind in ("__default__", "quicksort", "stable", "heapsort", "mergesort"):
+                kw = {} if kind == "__default__" else {"kind": kind}
+                yield case("sort", [sample(rng, (n,), "distinct")], kw, tags=["long"])
+                half = sample(rng, (n // 2,), "distinct")
+                xt = onp.concatenate([half, half])[rng.permutation(n)]
+                yield case("sort", [xt], kw, point="kink:tie", tags=["long"])
+            xt = onp.concatenate([half, half])[rng.permutation(n)]
+            yield case("partition", [xt, n // 3], point="kink:tie", tags=["long"])
         for shp in ((3, 4), (2, 3, 2)):
             for ax in ("__default__", 0, -1, None):
                 kw = {} if ax == "__default__" else {"axis": ax}
@@ -830,6 +853,11 @@ def gen_lists(rng, cx=False):
     yield case("select", [[c1, c2], [R((2, 3)), R((2, 3))]], argnum=1, form="selectfun")
     yield case("select", [[c1, c2], [R((3,)), R((2, 3))]], argnum=0, form="selectfun", tags=["bcast"])
     yield case("select", [[c1], [R((2, 3))]], argnum=0, form="selectfun")
+    # the fall-back value itself is the differentiated argument (array, broadcast row, scalar)
+    yield case("select", [[c1, c2], [R((2, 3)), R((2, 3))], R((2, 3))], argnum=2, tags=["traced_default"])
+    yield case("select", [[c1, c2], [R((2, 3)), R((2, 3))], R((3,))], argnum=2, tags=["traced_default", "bcast"])
+    yield case("select", [[c1 & ~c1, c2 & ~c2], [R((2, 3)), R((2, 3))], R((2, 3))], argnum=2, tags=["traced_default", "nothing_selected"])
+    yield case("select", [[c1, c2], [R((2, 3)), R((2, 3))], scal(rng, "any", cx)], argnum=2, tags=["traced_default"])
     # r_ / c_
     for argnum in (0, 1):
         yield case("r_", [[R((2,)), R((3,))]], argnum=argnum, form="indexer")
@@ -1230,6 +1258,10 @@ def gen_fft(rng, cx=False):
                         if s == "odd" or (s in ("__default__", "equal") and not inverse and full[-1] % 2 == 1):
                             tags.append("odd_length")
                         yield case(name, [x], kw, ns="fft", tags=tags)
+                        if inverse and not cx and nm == "__default__" and s in ("__default__", "larger_even"):
+                            # a REAL array handed to the inverse real transform (NumPy reads it as a spectrum
+                            # with zero imaginary part): the gradient belongs to a real argument
+                            yield case(name, [A(rng, shp, "any", False)], kw, ns="fft", tags=tags + ["real_spectrum"])
                         if dim == 1 and s not in ("__default__",) and nm == "__default__" and ax == "__default__":
                             yield case(name, [x, sv[0]], {}, ns="fft", tags=tags + ["positional_n"])
             if dim != 1:
